@@ -47,8 +47,34 @@ def rule_width(F, R, crate_name):
         R.violation('%s / L-W / VACUITY' % crate_name, 'VACUITY', 'no index arithmetic found in %s' % crate_name)
 
 # ------------------------------------------------------------------------------------------------ path conditions
+def diverges(e):
+    """does this expression always leave the enclosing iteration / function (continue, break, return, `Err(..)?`)?"""
+    e = strip(e)
+    while e['k'] == 'Block':
+        if e['expr'] is not None and not e['stmts']: e = strip(e['expr']); continue
+        if e['stmts'] and e['expr'] is None and len(e['stmts']) == 1 and e['stmts'][0]['k'] == 'Expr': e = strip(e['stmts'][0]['expr']); continue
+        if e['expr'] is not None and diverges(e['expr']): return True
+        return False
+    return e['k'] in ('Continue', 'Break', 'Return')
+
+def option_match(e):
+    """`match X { Some(p) => A, None => B }` (either arm order) -> (X, some-arm, none-arm) or None"""
+    if e['k'] != 'Match' or e.get('source') not in (None, 'Normal') or len(e['arms']) != 2: return None
+    some = none = None
+    for a in e['arms']:
+        p = unwrap_pat(a['pat'])
+        if a.get('guard') is not None: return None
+        if p['k'] == 'Variant' and canon(p.get('adt', '')) == 'std::option::Option':
+            if p['variant'] == 'Some': some = a
+            elif p['variant'] == 'None': none = a
+        elif p['k'] == 'Wild': none = a
+    if some is None or none is None: return None
+    return e['scrutinee'], some, none
+
 def push_sites(t, target_pred):
-    """yield (call expr, [(cond expr, polarity)]) for every call satisfying target_pred, with the enclosing If conditions"""
+    """yield (call expr, [(cond expr, polarity)]) for every call satisfying target_pred, with the conditions under which it is
+    reached: enclosing `if`s, `if let` / two-armed Option matches (as structural Let conditions), and earlier guard statements of the
+    same block whose then-branch leaves the iteration (`if c { continue; }` puts not-c on everything after it)."""
     out = []
     def rec(e, conds):
         if not isinstance(e, dict): return
@@ -64,19 +90,84 @@ def push_sites(t, target_pred):
                 rec(e['then'], conds + [(c, True)])
                 if e['else'] is not None: rec(e['else'], conds + [(c, False)])
             return
+        om = option_match(e)
+        if om is not None:
+            scr, some, none = om
+            c = {'k': 'Let', 'pat': some['pat'], 'expr': scr, 'loc': e.get('loc')}
+            rec(scr, conds)
+            rec(some['body'], conds + [(c, True)])
+            rec(none['body'], conds + [(c, False)])
+            return
+        if e['k'] == 'Block':
+            extra = []
+            for st in e['stmts']:
+                x = st['expr'] if st['k'] == 'Expr' else st.get('init')
+                if x is None: continue
+                rec(x, conds + extra)
+                y = strip(x)
+                if st['k'] == 'Expr' and y['k'] == 'If' and y['cond']['k'] != 'Let' and y.get('else') is None and diverges(y['then']):
+                    extra = extra + [(y['cond'], False)]
+            if e['expr'] is not None: rec(e['expr'], conds + extra)
+            return
         for ch in children(e): rec(ch, conds)
     rec(t['body'], [])
     return out
 
-class Atomizer:
-    def __init__(self): self.atoms = {}
-    def norm(self, e):
-        """readable normal form of a value expression: strips borrows, clones, to_string"""
+def simple_lets(t):
+    """var -> initialiser for the immutable single-binding lets of a body whose initialiser is a plain value (variable, field,
+    tuple, clone / to_string of those): such a variable is just a name for that value"""
+    def plain(e):
         e = strip(e)
+        if e['k'] in ('VarRef', 'UpvarRef', 'Literal'): return True
+        if e['k'] == 'Field': return plain(e['lhs'])
+        if e['k'] == 'Tuple': return all(plain(f) for f in e['fields'])
+        if e['k'] == 'Index': return plain(e['lhs']) and plain(e['index'])
+        if e['k'] == 'Call' and len(e['args']) == 2 and callee_decl(e) == 'std::ops::Index::index': return plain(e['args'][0]) and plain(e['args'][1])
+        if e['k'] == 'Call' and e['args'] and (callee_decl(e) in ('std::clone::Clone::clone', 'std::string::ToString::to_string', 'std::ops::Deref::deref', 'std::convert::AsRef::as_ref',
+                                                              'std::borrow::ToOwned::to_owned') or (callee_name(e) or '').endswith('::to_string')): return plain(e['args'][0])
+        return False
+    out = {}
+    for b in walk(t['body']):
+        if b['k'] != 'Block': continue
+        for st in b['stmts']:
+            if st['k'] == 'Let' and st.get('init') is not None:
+                q = unwrap_pat(st['pat'])
+                if q['k'] == 'Binding' and not q.get('mutable') and plain(st['init']): out[q['var']] = st['init']
+    return out
+
+def is_args_var(t, var):
+    """is `var` the parsed command line (let args = Args::parse())?"""
+    for b in walk(t['body']):
+        if b['k'] != 'Block': continue
+        for st in b['stmts']:
+            if st['k'] == 'Let' and st.get('init') is not None and unwrap_pat(st['pat']).get('var') == var:
+                i0 = strip(st['init'])
+                return i0['k'] == 'Call' and (callee_name(i0) or '').split('::')[-1] in ('parse', 'parse_from')
+    return False
+
+class Atomizer:
+    def __init__(self, t=None, roles=None):
+        self.atoms = {}
+        self.t = t
+        self.lets = simple_lets(t) if t is not None else {}
+        self.roles = roles or {}
+    def norm(self, e):
+        """readable normal form of a value expression: strips borrows, clones, to_string; local names for plain values are
+        replaced by the value, variables with a known role by the role's name, fields of the parsed command line by args.<field>"""
+        e = strip(e)
+        if e['k'] in ('VarRef', 'UpvarRef'):
+            if e['var'] in self.roles: return self.roles[e['var']]
+            if e['var'] in self.lets: return self.norm(self.lets[e['var']])
+        if e['k'] == 'Field' and self.t is not None:
+            b = strip(e['lhs'])
+            if b['k'] in ('VarRef', 'UpvarRef') and is_args_var(self.t, b['var']): return 'args.' + str(e.get('field_name', e['field']))
         while e['k'] == 'Call' and (callee_decl(e) in ('std::clone::Clone::clone', 'std::string::ToString::to_string', 'std::ops::Deref::deref', 'std::convert::AsRef::as_ref',
                                                       'std::borrow::ToOwned::to_owned') or (callee_name(e) or '').endswith('::to_string')) and e['args']:
             e = strip(e['args'][0])
-        if e['k'] in ('VarRef', 'UpvarRef'): return e['var'].split('#')[0]
+        if e['k'] in ('VarRef', 'UpvarRef'):
+            if e['var'] in self.roles: return self.roles[e['var']]
+            if e['var'] in self.lets: return self.norm(self.lets[e['var']])
+            return e['var'].split('#')[0]
         if e['k'] == 'Tuple': return '(' + ','.join(self.norm(f) for f in e['fields']) + ')'
         if e['k'] == 'Field': return self.norm(e['lhs']) + '.' + str(e.get('field_name', e['field']))
         if e['k'] == 'Index': return '%s[%s]' % (self.norm(e['lhs']), self.norm(e['index']))
@@ -121,9 +212,9 @@ def ev(t, asg):
     if t[0] == 'or': return ev(t[1], asg) or ev(t[2], asg)
     raise ValueError(t)
 
-def truth_table(R, fn, what, sites, spec, loc=None, rule='L'):
+def truth_table(R, fn, what, sites, spec, loc=None, rule='L', t=None, roles=None):
     """sites: list of path conditions; spec: function(asg-by-key) -> bool.  A = Atomizer shared by all sites."""
-    A = Atomizer()
+    A = Atomizer(t, roles)
     try:
         conds = []
         for (_call, pcs) in sites:
@@ -160,16 +251,55 @@ def is_push_to(varprefix):
     return pred
 
 # ------------------------------------------------------------------------------------------------ C16
+def for_loops(e):
+    """[(iterable expr, bound pattern, body)] for every `for` loop below e (outermost first)"""
+    out = []
+    for m in walk(e):
+        if m['k'] == 'Match' and m.get('source') == 'ForLoopDesugar':
+            sc = strip(m['scrutinee'])
+            if sc['k'] != 'Call' or not sc['args']: continue
+            for x in walk(m['arms'][0]['body']):
+                if x['k'] == 'Match' and x.get('source') == 'ForLoopDesugar':
+                    for a_ in x['arms']:
+                        p = unwrap_pat(a_['pat'])
+                        if p['k'] == 'Variant' and p['variant'] == 'Some' and p['subs']:
+                            out.append((sc['args'][0], unwrap_pat(p['subs'][0]['pat']), a_['body']))
+                    break
+    return out
+
+def clique_roles(t):
+    """the variables of max_clique_gen::main by role, not by spelling: the two nested loops over one vertex collection (v1 outer,
+    v2 inner), the list the loop pushes to (edges_complement), the other list the guard consults (edges)"""
+    for (it1, p1, body1) in for_loops(t['body']):
+        X = root_var(it1)
+        if X is None or p1['k'] != 'Binding': continue
+        for (it2, p2, body2) in for_loops(body1):
+            if root_var(it2) != X or p2['k'] != 'Binding': continue
+            pushes = [x for x in walk(body2) if x['k'] == 'Call' and callee_name(x) == 'std::vec::Vec::push' and root_var(x['args'][0])]
+            targets = set(root_var(x['args'][0]) for x in pushes)
+            if len(targets) != 1: continue
+            T = targets.pop()
+            roles = {p1['var']: 'v1', p2['var']: 'v2', X: 'vertices', T: 'edges_complement'}
+            others = set(root_var(x['args'][0]) for x in walk(body2) if x['k'] == 'Call' and callee_name(x) == 'core::slice::<impl [T]>::contains') - {T, None}
+            if len(others) == 1: roles[others.pop()] = 'edges'
+            return roles, T
+    return None, None
+
 def rule_max_clique(F, R):
     c = F.crate('max_clique_gen')
     t = c.ithir.get('max_clique_gen::main') if c else None
     if t is None:
         R.violation('max_clique_gen::main / L / anchor', 'UNDECIDABLE', 'max_clique_gen::main not found'); return
-    sites = push_sites(t, is_push_to('edges_complement'))
+    roles, T = clique_roles(t)
+    if roles is None:
+        R.violation('max_clique_gen::main / L / vertex loops', 'L', 'no pair of nested loops over one vertex collection that fills a list of vertex pairs was found'); return
+    R.count('L:vertex-loops', 2); R.obligation(True, 'L loops')
+    sites = push_sites(t, lambda e: callee_name(e) == 'std::vec::Vec::push' and root_var(e['args'][0]) == T)
     R.count('L:complement-push-sites', len(sites))
     # pair-level specification: for two distinct vertices a, b the constraint -(a & b) is emitted (in either orientation, whichever is
     # visited first) iff a and b are NOT adjacent, where adjacent = (-u ? E(a,b) or E(b,a) : E(a,b) and E(b,a)); never for a == b
-    A = Atomizer()
+    A = Atomizer(t, roles)
+    FLAG = ('flag', 'args.undirected')
     try:
         conds = []
         for (_call, pcs) in sites:
@@ -181,7 +311,7 @@ def rule_max_clique(F, R):
             conds.append(cs)
     except ValueError as ex:
         R.violation('max_clique_gen::main / L / UNDECIDABLE complement-edge insertion', 'UNDECIDABLE', 'cannot interpret the guard of the complement-edge insertion: %s' % ex, t['span']['loc']); return
-    known = {('eq', 'v1', 'v2'), ('flag', 'is_undirected'), ('in', '(v1,v2)', 'edges'), ('in', '(v2,v1)', 'edges'), ('in', '(v2,v1)', 'edges_complement'),
+    known = {('eq', 'v1', 'v2'), FLAG, ('in', '(v1,v2)', 'edges'), ('in', '(v2,v1)', 'edges'), ('in', '(v2,v1)', 'edges_complement'),
              ('in', '(v1,v2)', 'edges_complement'), ('lt', 'v1', 'v2'), ('lt', 'v2', 'v1')}
     unknown = [k for k in A.atoms if k not in known]
     if unknown:
@@ -190,7 +320,7 @@ def rule_max_clique(F, R):
     def orient(U, Eab, Eba, L, Cba, Cab, first):
         # first=True: (v1,v2) = (a,b); else (b,a)
         e12, e21 = (Eab, Eba) if first else (Eba, Eab)
-        return {('eq', 'v1', 'v2'): False, ('flag', 'is_undirected'): U, ('in', '(v1,v2)', 'edges'): e12, ('in', '(v2,v1)', 'edges'): e21,
+        return {('eq', 'v1', 'v2'): False, FLAG: U, ('in', '(v1,v2)', 'edges'): e12, ('in', '(v2,v1)', 'edges'): e21,
                 ('in', '(v2,v1)', 'edges_complement'): Cba if first else Cab, ('in', '(v1,v2)', 'edges_complement'): Cab if first else Cba,
                 ('lt', 'v1', 'v2'): L if first else (not L), ('lt', 'v2', 'v1'): (not L) if first else L}
     bad = []
@@ -210,65 +340,50 @@ def rule_max_clique(F, R):
                             bad.append({'-u': U, 'E(a,b)': Eab, 'E(b,a)': Eba, 'a<b': L, '(a,b) visited first': ab_first, 'constraint emitted': emitted})
     # self pairs never produce a constraint
     for m in range(1 << 6):
-        asg = {('eq', 'v1', 'v2'): True, ('flag', 'is_undirected'): bool(m & 1), ('in', '(v1,v2)', 'edges'): bool(m & 2), ('in', '(v2,v1)', 'edges'): bool(m & 2),
+        asg = {('eq', 'v1', 'v2'): True, FLAG: bool(m & 1), ('in', '(v1,v2)', 'edges'): bool(m & 2), ('in', '(v2,v1)', 'edges'): bool(m & 2),
                ('in', '(v2,v1)', 'edges_complement'): bool(m & 8), ('in', '(v1,v2)', 'edges_complement'): bool(m & 8), ('lt', 'v1', 'v2'): False, ('lt', 'v2', 'v1'): False}
         if g(asg): bad.append({'self pair': True, **{str(k): v for k, v in asg.items()}}); break
-    R.sample({'rule': 'L', 'fn': 'max_clique_gen::main', 'what': 'pair-level complement-edge table', 'atoms': [str(k) for k in A.atoms]})
+    R.sample({'rule': 'L', 'fn': 'max_clique_gen::main', 'what': 'pair-level complement-edge table', 'atoms': [str(k) for k in A.atoms], 'roles': {k.split('#')[0]: v for k, v in roles.items()}})
     if bad:
         R.violation('max_clique_gen::main / L / complement-edge insertion', 'L', 'for a pair of vertices the constraint -(a & b) must be emitted iff they are not adjacent; disagreement in %d case(s), e.g. %s' % (len(bad), bad[0]), t['span']['loc'])
     # the pushed pair is (v1, v2)
     for (call, _) in sites:
-        a = Atomizer().norm(call['args'][1])
+        a = Atomizer(t, roles).norm(call['args'][1])
         ok = a == '(v1,v2)'
         R.obligation(ok, None)
         if not ok: R.violation('max_clique_gen::main / L / pushed pair', 'L', 'complement edge pushed as %s, expected (v1,v2)' % a, call['loc'])
-    # v1, v2 both range over the same vertex set
-    loops = []
-    for e in walk(t['body']):
-        if e['k'] == 'Match' and strip(e['scrutinee'])['k'] == 'Call' and callee_decl(strip(e['scrutinee'])) == 'std::iter::IntoIterator::into_iter':
-            src = root_var(strip(e['scrutinee'])['args'][0])
-            binds = [unwrap_pat(a['pat']) for m in walk(e) if m['k'] == 'Match' for a in m['arms']]
-            names = []
-            for p in binds:
-                if p['k'] == 'Variant' and p['variant'] == 'Some' and p['subs']:
-                    q = unwrap_pat(p['subs'][0]['pat'])
-                    if q['k'] == 'Binding': names.append(q['name'])
-            loops.append((src.split('#')[0] if src else None, names[:1]))
-    vl = [l for l in loops if l[1] in (['v1'], ['v2'])]
-    ok = len(vl) == 2 and vl[0][0] == vl[1][0] == 'vertices'
-    R.count('L:vertex-loops', len(vl)); R.obligation(ok, 'L loops')
-    if not ok: R.violation('max_clique_gen::main / L / vertex loops', 'L', 'v1 and v2 must both range over `vertices`: %s' % vl)
     # both emissions of the constraints use the same list and project (first, second) in that order
     uses = []
     for e in walk(t['body']):
         if e['k'] == 'Call' and (callee_decl(e) == 'std::iter::IntoIterator::into_iter' or callee_name(e) == 'core::slice::<impl [T]>::iter'):
-            v = root_var(e['args'][0])
-            if v and v.split('#')[0] == 'edges_complement': uses.append(e['loc'])
+            if root_var(e['args'][0]) == T: uses.append(e['loc'])
     R.count('L:complement-list-readers', len(uses)); R.obligation(len(uses) >= 2, 'L readers')
-    if len(uses) < 2: R.violation('max_clique_gen::main / L / constraint copies', 'L', 'the plain and the v_-prefixed constraint blocks must both be generated from edges_complement (found %d readers)' % len(uses))
+    if len(uses) < 2: R.violation('max_clique_gen::main / L / constraint copies', 'L', 'the plain and the v_-prefixed constraint blocks must both be generated from the complement-edge list (found %d readers)' % len(uses))
     # --all replaces the maximality part by `true`
     ok = False
-    for e in walk(t['body']):
-        if e['k'] == 'If' and strip(e['cond'])['k'] == 'VarRef' and strip(e['cond'])['var'].startswith('show_all'):
-            def lits(x):
-                out = []
-                for y in walk(x):
-                    if y['k'] == 'Literal' and y.get('lit') == 'ByteStr': out.append(bytes(y['value']))
-                    if y['k'] == 'Literal' and y.get('lit') == 'Str': out.append(y['value'].encode())
-                return out
-            th = lits(e['then'])
-            el_forall = any(b'forall' in b for b in lits(e['else'])) if e['else'] else False
-            ok = any(b'true' in b for b in th) and not any(b'forall' in b for b in th) and el_forall
+    N = Atomizer(t, roles)
+    all_ifs = [e for e in walk(t['body']) if e['k'] == 'If' and e['cond']['k'] != 'Let' and strip(e['cond'])['k'] in ('VarRef', 'UpvarRef', 'Field') and N.norm(e['cond']) == 'args.all']
+    for e in all_ifs:
+        def lits(x):
+            out = []
+            for y in walk(x):
+                if y['k'] == 'Literal' and y.get('lit') == 'ByteStr': out.append(bytes(y['value']))
+                if y['k'] == 'Literal' and y.get('lit') == 'Str': out.append(y['value'].encode())
+            return out
+        th = lits(e['then'])
+        el_forall = any(b'forall' in b for b in lits(e['else'])) if e['else'] else False
+        ok = any(b'true' in b for b in th) and not any(b'forall' in b for b in th) and el_forall
     R.count('L:all-switch'); R.obligation(ok, 'L --all')
     if not ok: R.violation('max_clique_gen::main / L / --all', 'L', 'with --all the maximality conjunct must be replaced by `true`, without it the forall block must be emitted')
-    # the quantifier list and both counting lists are produced from `vertices`
+    # the quantifier list and both counting lists are produced from the vertex collection
     n = 0
-    for e in walk(t['body']):
-        if e['k'] == 'If' and strip(e['cond'])['k'] == 'VarRef' and strip(e['cond'])['var'].startswith('show_all') and e['else']:
-            for x in walk(e['else']):
-                if x['k'] == 'Call' and callee_name(x) in ('std::collections::HashSet::iter',) and (root_var(x['args'][0]) or '').startswith('vertices'): n += 1
+    X = [k for k, v in roles.items() if v == 'vertices'][0]
+    for e in all_ifs:
+        if not e['else']: continue
+        for x in walk(e['else']):
+            if x['k'] == 'Call' and callee_name(x) in ('std::collections::HashSet::iter',) and root_var(x['args'][0]) == X: n += 1
     R.count('L:vertex-list-uses', n); R.obligation(n == 3, 'L vertices uses')
-    if n != 3: R.violation('max_clique_gen::main / L / vertex lists', 'L', 'the forall binder list and the two counting lists must each be generated from `vertices` (found %d uses)' % n)
+    if n != 3: R.violation('max_clique_gen::main / L / vertex lists', 'L', 'the forall binder list and the two counting lists must each be generated from the vertex collection (found %d uses)' % n)
 
 # ------------------------------------------------------------------------------------------------ C18
 def poly_of(e, varname):
@@ -303,12 +418,138 @@ def padd(a, b):
     for k, v in b.items(): out[k] = out.get(k, 0) + v
     return {k: v for k, v in out.items() if v != 0}
 
+
+def param_vars(t):
+    out = []
+    for p in t['params']:
+        q = unwrap_pat(p['pat']) if 'pat' in p else {'k': '?'}
+        out.append(q.get('var') if q['k'] == 'Binding' else None)
+    return out
+
+def pat_vars(p):
+    """variables of a loop pattern: Binding -> [v]; tuple pattern (a, b) -> [a, b]"""
+    p = unwrap_pat(p)
+    if p['k'] == 'Binding': return [p['var']]
+    if p['k'] == 'Leaf' and 'adt' not in p:
+        out = []
+        for sp in sorted(p['subs'], key=lambda x: x['field']):
+            q = unwrap_pat(sp['pat'])
+            out.append(q['var'] if q['k'] == 'Binding' else None)
+        return out
+    return []
+
+def is_enumerate(e):
+    e = strip(e)
+    return e['k'] == 'Call' and callee_decl(e) == 'std::iter::Iterator::enumerate'
+
+def push_target(t):
+    ts = set(root_var(x['args'][0]) for x in walk(t['body']) if x['k'] == 'Call' and callee_name(x) == 'std::vec::Vec::push') - {None}
+    return ts.pop() if len(ts) == 1 else None
+
+def graph_roles(c):
+    """variables of random_graph_gen's functions by role (what they do), not by spelling"""
+    G = 'random_graph_gen::'
+    out = {}
+    # generate_graph(num_vertices, num_edges, undirected): outer loop (i, v1) over enumerate(vertices); inner (j, v2) or v2
+    t = c.ithir.get(G + 'generate_graph')
+    if t is not None:
+        r = {}
+        pv = param_vars(t)
+        for v, nm in zip(pv, ('num_vertices', 'num_edges', 'undirected')):
+            if v: r[v] = nm
+        T = push_target(t)
+        if T: r[T] = 'edges'
+        for (it, p, body) in for_loops(t['body']):
+            vs = pat_vars(p)
+            if is_enumerate(it) and len(vs) == 2 and any(x['k'] == 'Call' and callee_name(x) == 'std::vec::Vec::push' for x in walk(body)) and 'v1' not in r.values():
+                if vs[0]: r[vs[0]] = 'i'
+                if vs[1]: r[vs[1]] = 'v1'
+                X = root_var(strip(it)['args'][0]) if strip(it)['args'] else None
+                xi = strip(strip(it)['args'][0])
+                if xi['k'] == 'Call' and xi['args']: X = root_var(xi['args'][0])
+                if X: r[X] = 'vertices'
+                for (it2, p2, body2) in for_loops(body):
+                    vs2 = pat_vars(p2)
+                    if len(vs2) == 2:
+                        if vs2[0]: r[vs2[0]] = 'j'
+                        if vs2[1]: r[vs2[1]] = 'v2'
+                    elif len(vs2) == 1 and vs2[0]: r[vs2[0]] = 'v2'
+        out['generate_graph'] = r
+    # read_graph(reader, undirected)
+    t = c.ithir.get(G + 'read_graph')
+    if t is not None:
+        r = {}
+        pv = param_vars(t)
+        if len(pv) >= 2 and pv[1]: r[pv[1]] = 'undirected'
+        T = push_target(t)
+        if T: r[T] = 'edges'
+        for x in walk(t['body']):
+            if x['k'] == 'Call' and callee_name(x) == 'std::vec::Vec::push':
+                for y in walk(x['args'][1]):
+                    base = None
+                    if y['k'] == 'Index': base = root_var(y['lhs'])
+                    if y['k'] == 'Call' and callee_decl(y) == 'std::ops::Index::index': base = root_var(y['args'][0])
+                    if base: r[base] = 'edge'
+        out['read_graph'] = r
+    # augment_colors(edges, num_colors)
+    t = c.ithir.get(G + 'augment_colors')
+    if t is not None:
+        r = {}
+        pv = param_vars(t)
+        for v, nm in zip(pv, ('edges', 'num_colors')):
+            if v: r[v] = nm
+        T = push_target(t)
+        if T: r[T] = 'new_edges'
+        # the colour loop variable and the edge loop variable of the first nest
+        for (it, p, body) in for_loops(t['body']):
+            vs = pat_vars(p); i0 = strip(it)
+            if i0['k'] == 'Adt' and canon(i0['adt']) == 'std::ops::Range' and len(vs) == 1 and vs[0] and any(x['k'] == 'Call' and callee_name(x) == 'std::collections::HashMap::insert' for x in walk(body)):
+                r[vs[0]] = 'color'
+            elif root_var(it) == pv[0] and len(vs) == 1 and vs[0]:
+                r[vs[0]] = 'edge'
+        for x in walk(t['body']):
+            if x['k'] == 'Call' and callee_name(x) == 'std::collections::HashMap::insert':
+                M = root_var(x['args'][0]); val = strip(x['args'][2])
+                while val['k'] == 'Call' and callee_decl(val) == 'std::clone::Clone::clone': val = strip(val['args'][0])
+                if M and val['k'] == 'Field' and r.get(root_var(val['lhs'])) == 'edge': r[M] = 'vertex_map'
+                if M and val['k'] in ('VarRef', 'UpvarRef') and r.get(val['var']) == 'color': r[M] = 'color_map'
+        for (it, p, body) in for_loops(t['body']):
+            vs = pat_vars(p)
+            if is_enumerate(it) and len(vs) == 2 and T and any(x['k'] == 'Call' and callee_name(x) == 'std::vec::Vec::push' for x in walk(body)):
+                if vs[0]: r[vs[0]] = 'i'
+                if vs[1]: r[vs[1]] = 'v1'
+                xi = strip(strip(it)['args'][0])
+                X = root_var(xi['args'][0]) if xi['k'] == 'Call' and xi['args'] else root_var(xi)
+                if X: r[X] = 'vertices'
+                for (it2, p2, body2) in for_loops(body):
+                    vs2 = pat_vars(p2)
+                    if len(vs2) == 1 and vs2[0]: r[vs2[0]] = 'v2'
+        out['augment_colors'] = r
+    # main: the selection is the value of generate_graph / read_graph
+    t = c.ithir.get(G + 'main')
+    if t is not None:
+        r = {}
+        for b in walk(t['body']):
+            if b['k'] != 'Block': continue
+            for st in b['stmts']:
+                if st['k'] == 'Let' and st.get('init') is not None and unwrap_pat(st['pat'])['k'] == 'Binding':
+                    if any(x['k'] == 'Call' and callee_name(x) in (G + 'generate_graph', G + 'read_graph') for x in walk(st['init'])):
+                        r[unwrap_pat(st['pat'])['var']] = 'selection'
+        out['main'] = r
+    return out
+
+def rolename(roles, var):
+    if var is None: return None
+    return roles.get(var, var.split('#')[0])
+
 def rule_random_graph(F, R):
     c = F.crate('random_graph_gen')
     if c is None:
         R.violation('random_graph_gen / L / anchor', 'UNDECIDABLE', 'crate not found'); return
     G = 'random_graph_gen::'
+    ROLES = graph_roles(c)
     t = c.ithir.get(G + 'generate_graph')
+    roles = ROLES.get('generate_graph', {})
     if t is None:
         R.violation(G + 'generate_graph / L / anchor', 'UNDECIDABLE', 'generate_graph not found')
     else:
@@ -317,28 +558,35 @@ def rule_random_graph(F, R):
         tail = body['expr'] if body['k'] == 'Block' else None
         ok = False; why = 'the function result is not `if let Some(..) = edges.get(0..num_edges) { Ok(..) } else { Err(..) }`'
         oks = [x for x in walk(body) if x['k'] == 'Adt' and canon(x['adt']) == 'std::result::Result' and x['variant'] == 'Ok']
-        if tail is not None and tail['k'] == 'If' and tail['cond']['k'] == 'Let':
-            pat = unwrap_pat(tail['cond']['pat']); call = strip(tail['cond']['expr'])
+        while tail is not None and tail['k'] in ('Use', 'NeverToAny'): tail = tail['source']
+        parts = None        # (pattern of the Some arm, checked call, value when Some, value when None) - `if let` and `match` forms alike
+        if tail is not None and tail['k'] == 'If' and tail['cond']['k'] == 'Let' and tail['else'] is not None:
+            parts = (tail['cond']['pat'], tail['cond']['expr'], tail['then'], tail['else'])
+        elif tail is not None and option_match(tail) is not None:
+            scr, some, none = option_match(tail)
+            parts = (some['pat'], scr, some['body'], none['body'])
+        if parts is not None:
+            pat = unwrap_pat(parts[0]); call = strip(parts[1])
             if pat['k'] == 'Variant' and pat['variant'] == 'Some' and call['k'] == 'Call' and callee_name(call) == 'core::slice::<impl [T]>::get':
                 rng = strip(call['args'][1])
                 src = root_var(call['args'][0])
                 rng_ok = rng['k'] == 'Adt' and canon(rng['adt']) == 'std::ops::Range' and len(rng['fields']) == 2 and \
-                    strip(rng['fields'][0]['expr']).get('value') == '0' and (root_var(rng['fields'][1]['expr']) or '').startswith('num_edges')
+                    strip(rng['fields'][0]['expr']).get('value') == '0' and rolename(roles, root_var(rng['fields'][1]['expr'])) == 'num_edges'
                 bound = unwrap_pat(pat['subs'][0]['pat']).get('var') if pat['subs'] else None
-                then_ok = [x for x in walk(tail['then']) if x['k'] == 'Adt' and x['variant'] == 'Ok' and canon(x['adt']) == 'std::result::Result']
+                then_ok = [x for x in walk(parts[2]) if x['k'] == 'Adt' and x['variant'] == 'Ok' and canon(x['adt']) == 'std::result::Result']
                 then_uses = then_ok and root_var(then_ok[0]['fields'][0]['expr']) == bound
-                else_err = tail['else'] is not None and any(x['k'] == 'Adt' and x['variant'] == 'Err' and canon(x['adt']) == 'std::result::Result' for x in walk(tail['else'])) \
-                    and not any(x['k'] == 'Adt' and x['variant'] == 'Ok' and canon(x['adt']) == 'std::result::Result' for x in walk(tail['else']))
-                ok = rng_ok and bool(then_uses) and else_err and len(oks) == 1 and (src or '').startswith('edges')
+                else_err = any(x['k'] == 'Adt' and x['variant'] == 'Err' and canon(x['adt']) == 'std::result::Result' for x in walk(parts[3])) \
+                    and not any(x['k'] == 'Adt' and x['variant'] == 'Ok' and canon(x['adt']) == 'std::result::Result' for x in walk(parts[3]))
+                ok = rng_ok and bool(then_uses) and else_err and len(oks) == 1 and rolename(roles, src) == 'edges'
                 if not rng_ok: why = 'the slice taken is not 0..num_edges'
                 elif len(oks) != 1: why = 'there are %d Ok(..) results; only the checked slice may be returned' % len(oks)
         R.count('L:refuse-not-truncate'); R.obligation(ok, 'L refuse')
         if not ok: R.violation(G + 'generate_graph / L / refuse-not-truncate', 'L', 'an infeasible request must be refused: ' + why, t['span']['loc'])
         # (b) candidates: directed under i != j, undirected from i+1
-        sites = push_sites(t, is_push_to('edges'))
+        sites = push_sites(t, lambda e: callee_name(e) == 'std::vec::Vec::push' and rolename(roles, root_var(e['args'][0])) == 'edges')
         R.count('L:candidate-push-sites', len(sites))
-        dir_sites = [s for s in sites if any(c_['k'] != 'Let' and root_var(c_) and root_var(c_).startswith('undirected') and not pol for (c_, pol) in s[1])]
-        und_sites = [s for s in sites if any(c_['k'] != 'Let' and root_var(c_) and root_var(c_).startswith('undirected') and pol for (c_, pol) in s[1])]
+        dir_sites = [s for s in sites if any(c_['k'] != 'Let' and rolename(roles, root_var(c_)) == 'undirected' and not pol for (c_, pol) in s[1])]
+        und_sites = [s for s in sites if any(c_['k'] != 'Let' and rolename(roles, root_var(c_)) == 'undirected' and pol for (c_, pol) in s[1])]
         ok = len(dir_sites) == 1 and len(und_sites) == 1 and len(sites) == 2
         R.obligation(ok, 'L push sites')
         if not ok: R.violation(G + 'generate_graph / L / candidate sites', 'L', 'expected one candidate insertion per mode (directed / undirected), found %d / %d' % (len(dir_sites), len(und_sites)))
@@ -346,70 +594,119 @@ def rule_random_graph(F, R):
             def spec_dir(a):
                 if a[('flag', 'undirected')]: return None
                 return not a[('eq', 'i', 'j')]
-            truth_table(R, G + 'generate_graph', 'directed candidate (i,j)', dir_sites, spec_dir, t['span']['loc'])
+            truth_table(R, G + 'generate_graph', 'directed candidate (i,j)', dir_sites, spec_dir, t['span']['loc'], t=t, roles=roles)
             # undirected: inner iteration source is vertices.get((i + 1)..)
             okU = False
             for (cnd, pol) in und_sites[0][1]:
                 if cnd['k'] == 'Let' and pol:
                     call = strip(cnd['expr'])
-                    if call['k'] == 'Call' and callee_name(call) == 'core::slice::<impl [T]>::get' and (root_var(call['args'][0]) or '').startswith('vertices'):
+                    if call['k'] == 'Call' and callee_name(call) == 'core::slice::<impl [T]>::get' and rolename(roles, root_var(call['args'][0])) == 'vertices':
                         rng = strip(call['args'][1])
                         if rng['k'] == 'Adt' and canon(rng['adt']) == 'std::ops::RangeFrom':
                             st = strip(rng['fields'][0]['expr'])
-                            okU = st['k'] == 'Binary' and st['op'] == 'Add' and (root_var(st['lhs']) or '').startswith('i#') and strip(st['rhs']).get('value') == '1'
+                            okU = st['k'] == 'Binary' and st['op'] == 'Add' and rolename(roles, root_var(st['lhs'])) == 'i' and strip(st['rhs']).get('value') == '1'
             R.count('L:undirected-slice'); R.obligation(okU, 'L undirected slice')
             if not okU: R.violation(G + 'generate_graph / L / undirected candidates', 'L', 'undirected candidates for vertex i must be taken from vertices[(i+1)..] (no self pair, each unordered pair once)')
             for (call, _) in sites:
-                a = Atomizer().norm(call['args'][1])
+                a = Atomizer(t, roles).norm(call['args'][1])
                 R.obligation(a == '(v1,v2)', None)
                 if a != '(v1,v2)': R.violation(G + 'generate_graph / L / candidate pair', 'L', 'candidate pushed as %s' % a, call['loc'])
-    # (c) --complete edge counts
+    # (c) what main passes on: value provenance of the arguments of generate_graph / read_graph, under the conditions of the call
     m = c.ithir.get(G + 'main')
     if m is not None:
-        found = False
-        for e in walk(m['body']):
-            if e['k'] == 'If' and strip(e['cond'])['k'] == 'Field' and strip(e['cond']).get('field_name') == 'undirected' and e['else'] is not None:
+        import flow
+        fl = flow.Flow(c)
+        found = []
+        flow.scan(fl, m['body'], {}, lambda x: x.get('k') == 'Call' and callee_name(x) in (G + 'generate_graph', G + 'read_graph'), found)
+        ARGS = ('args',)
+        fld = lambda n: ('field', ARGS, n)
+        unwrap = lambda x: ('call', 'std::option::Option::unwrap', (x,))
+        V = unwrap(fld('vertices'))
+        def poly(tm):
+            if tm == V: return {1: Fraction(1)}
+            if tm[0] == 'lit': return {0: Fraction(int(tm[1]))}
+            if tm[0] == 'bin':
+                x, y = poly(tm[2]), poly(tm[3])
+                if tm[1] == 'Add': return padd(x, y)
+                if tm[1] == 'Sub': return padd(x, {k: -v for k, v in y.items()})
+                if tm[1] == 'Mul':
+                    o = {}
+                    for i, p_ in x.items():
+                        for j, q_ in y.items(): o[i + j] = o.get(i + j, 0) + p_ * q_
+                    return o
+                if tm[1] == 'Div' and list(y) == [0] and y[0] != 0 and y[0].denominator == 1:
+                    d = int(y[0])
+                    if any(cf.denominator != 1 for cf in x.values()): raise ValueError('division of a non-integer polynomial')
+                    for r_ in range(abs(d)):
+                        if sum(int(cf) * r_ ** k for k, cf in x.items()) % d != 0:
+                            raise ValueError('integer division `%s / %d` truncates (e.g. when vertices = %d mod %d)' % (flow.show(tm[2])[:40], d, r_, abs(d)))
+                    return {k: v / y[0] for k, v in x.items()}
+            raise ValueError('not a polynomial in the number of vertices: ' + flow.show(tm)[:60])
+        gens = [(n_, env) for n_, env in found if callee_name(n_) == G + 'generate_graph']
+        reads = [(n_, env) for n_, env in found if callee_name(n_) == G + 'read_graph']
+        def cond_val(env, name):
+            for ct, pol in env.get('#conds', ()):
+                if ct == fld(name): return pol
+            return None
+        seen_complete = seen_random = False
+        for n_, env in gens:
+            a0, a1, a2 = [fl.ev(x, env) for x in n_['args']]
+            comp = cond_val(env, 'complete')
+            okc = a0 == V and a2 == fld('undirected')
+            why = 'generate_graph must receive args.vertices, the edge count and args.undirected unchanged (got %s, %s, %s)' % (flow.show(a0), flow.show(a1)[:80], flow.show(a2))
+            if okc and comp is True:
+                seen_complete = True
                 try:
-                    th = e['then']; el = e['else']
-                    while th['k'] == 'Block' and not th['stmts']: th = th['expr']
-                    while el['k'] == 'Block' and not el['stmts']: el = el['expr']
-                    pu, pd = poly_of(th, 'vertices'), poly_of(el, 'vertices')
-                except (ValueError, TypeError) as ex:
-                    if 'truncates' in str(ex):
-                        found = True
-                        R.count('L:complete-count'); R.obligation(False, 'L complete')
-                        R.violation(G + 'main / L / --complete', 'L', '--complete edge count: %s' % ex, e['loc'])
-                    continue
-                found = True
-                ok = pu == {2: Fraction(1, 2), 1: Fraction(-1, 2)} and pd == {2: Fraction(1), 1: Fraction(-1)}
-                R.count('L:complete-count'); R.obligation(ok, 'L complete')
-                R.sample({'rule': 'L', 'complete graph edge counts': {'undirected': str(pu), 'directed': str(pd)}})
-                if not ok: R.violation(G + 'main / L / --complete', 'L', '--complete must request V(V-1)/2 undirected resp. V(V-1) directed edges; got %s / %s' % (pu, pd), e['loc'])
-        if not found:
-            R.violation(G + 'main / L / --complete anchor', 'UNDECIDABLE', 'cannot find the edge-count expression of --complete')
+                    okc = a1[0] == 'ite' and a1[1] == fld('undirected')
+                    if okc:
+                        pu, pd = poly(a1[2]), poly(a1[3])
+                        okc = pu == {2: Fraction(1, 2), 1: Fraction(-1, 2)} and pd == {2: Fraction(1), 1: Fraction(-1)}
+                        why = '--complete must request V(V-1)/2 undirected resp. V(V-1) directed edges; got %s / %s' % (pu, pd)
+                        R.sample({'rule': 'L', 'complete graph edge counts': {'undirected': str(pu), 'directed': str(pd)}})
+                    else: why = '--complete must choose the edge count by args.undirected; got %s' % flow.show(a1)[:100]
+                except ValueError as ex:
+                    okc = False; why = '--complete edge count: %s' % ex
+                R.count('L:complete-count'); R.obligation(okc, 'L complete')
+                if not okc: R.violation(G + 'main / L / --complete', 'L', why, n_.get('loc'))
+            elif okc and comp is False:
+                seen_random = True
+                okc = a1 == unwrap(fld('edges'))
+                R.count('L:random-call'); R.obligation(okc, 'L random call')
+                if not okc: R.violation(G + 'main / L / random graph call', 'L', 'without --complete the requested number of edges must be args.edges; got %s' % flow.show(a1)[:100], n_.get('loc'))
+            else:
+                R.obligation(False, 'L gen call')
+                R.violation(G + 'main / L / generate_graph call', 'L', why if not okc else 'a call of generate_graph that is not decided by --complete', n_.get('loc'))
+        if not (seen_complete and seen_random):
+            R.obligation(False, 'L gen calls')
+            R.violation(G + 'main / L / generate_graph calls', 'L', 'expected one call for --complete and one for a random graph (found complete=%s random=%s)' % (seen_complete, seen_random))
+        okr = len(reads) == 1 and fl.ev(reads[0][0]['args'][1], reads[0][1]) == fld('undirected')
+        R.count('L:convert-call'); R.obligation(okr, 'L convert call')
+        if not okr: R.violation(G + 'main / L / --convert call', 'L', '--convert must read the graph with args.undirected unchanged')
     # (d) read_graph
     t = c.ithir.get(G + 'read_graph')
+    roles = ROLES.get('read_graph', {})
     if t is not None:
-        sites = push_sites(t, is_push_to('edges'))
+        sites = push_sites(t, lambda e: callee_name(e) == 'std::vec::Vec::push' and rolename(roles, root_var(e['args'][0])) == 'edges')
         R.count('L:read_graph-push-sites', len(sites))
         def spec(a):
             return not (a[('flag', 'undirected')] and a[('in', '(edge[1],edge[0])', 'edges')])
-        truth_table(R, G + 'read_graph', 'edge insertion', sites, spec, t['span']['loc'])
+        truth_table(R, G + 'read_graph', 'edge insertion', sites, spec, t['span']['loc'], t=t, roles=roles)
         for (call, _) in sites:
-            a = Atomizer().norm(call['args'][1])
+            a = Atomizer(t, roles).norm(call['args'][1])
             R.obligation(a == '(edge[0],edge[1])', None)
             if a != '(edge[0],edge[1])': R.violation(G + 'read_graph / L / pair', 'L', '--convert must reproduce each edge as given; pushed %s' % a, call['loc'])
     # (e) augment_colors
     t = c.ithir.get(G + 'augment_colors')
+    roles = ROLES.get('augment_colors', {})
     if t is not None:
-        sites = push_sites(t, is_push_to('new_edges'))
+        sites = push_sites(t, lambda e: callee_name(e) == 'std::vec::Vec::push' and rolename(roles, root_var(e['args'][0])) == 'new_edges')
         R.count('L:colour-push-sites', len(sites))
         def spec(a):
-            diffv = not a[('eq', 'ov1', 'ov2')]
-            diffc = not a[('eq', 'c1', 'c2')]
-            adj = a[('in', '(ov1,ov2)', 'edges')] or a[('in', '(ov2,ov1)', 'edges')]
+            diffv = not a[('eq', 'vertex_map[v1]', 'vertex_map[v2]')]
+            diffc = not a[('eq', 'color_map[v1]', 'color_map[v2]')]
+            adj = a[('in', '(vertex_map[v1],vertex_map[v2])', 'edges')] or a[('in', '(vertex_map[v2],vertex_map[v1])', 'edges')]
             return diffv and (diffc or not adj)
-        truth_table(R, G + 'augment_colors', 'product-graph edge', sites, spec, t['span']['loc'])
+        truth_table(R, G + 'augment_colors', 'product-graph edge', sites, spec, t['span']['loc'], t=t, roles=roles)
 
 # ------------------------------------------------------------------------------------------------ emitted templates (token level)
 def tokenize_text(pattern, text):
@@ -499,6 +796,7 @@ def rule_graph_writers(F, R):
     t = c.ithir.get('random_graph_gen::main') if c else None
     if t is None:
         R.violation('random_graph_gen::main / L / writers anchor', 'UNDECIDABLE', 'random_graph_gen::main not found'); return
+    mroles = graph_roles(c).get('main', {})
     # walk the If-structure on args.dot / args.undirected and collect (context, template, argument fields, iterated variable)
     found = []
     def visit(e, ctx):
@@ -541,7 +839,7 @@ def rule_graph_writers(F, R):
         ok = len(ws) == 1 and ws[0][1] is not None and ws[0][1].strip() == tmpl
         if ok:
             (a, i0), (b, i1) = ws[0][2]
-            ok = a is not None and a == b and (i0, i1) == (0, 1) and (ws[0][3] or '').startswith('selection')
+            ok = a is not None and a == b and (i0, i1) == (0, 1) and rolename(mroles, ws[0][3]) == 'selection'
         R.obligation(ok, 'L writer %s' % (ctx,))
         if not ok:
             R.violation('random_graph_gen::main / L / writer %s' % ' '.join('%s=%s' % kv for kv in ctx), 'L',
@@ -561,12 +859,14 @@ def rule_colour_vertices(F, R):
     m = c.ithir.get('random_graph_gen::main') if c else None
     if t is None or m is None:
         R.violation('random_graph_gen::augment_colors / L / anchor', 'UNDECIDABLE', 'augment_colors not found'); return
+    ROLES = graph_roles(c)
+    roles = ROLES.get('augment_colors', {}); mroles = ROLES.get('main', {})
     # colour range 0..num_colors
     rng_ok = False
     for e in walk(t['body']):
         if e['k'] == 'Adt' and canon(e['adt']) == 'std::ops::Range':
             lo = [f['expr'] for f in e['fields'] if f['name'] == 'start'][0]; hi = [f['expr'] for f in e['fields'] if f['name'] == 'end'][0]
-            if strip(lo).get('value') == '0' and (root_var(hi) or '').startswith('num_colors') and strip(hi)['k'] == 'VarRef': rng_ok = True
+            if strip(lo).get('value') == '0' and rolename(roles, root_var(hi)) == 'num_colors' and strip(hi)['k'] == 'VarRef': rng_ok = True
     R.count('L:colour-range'); R.obligation(rng_ok, 'L colour range')
     if not rng_ok: R.violation('random_graph_gen::augment_colors / L / colour range', 'L', 'colours must range over 0..num_colors')
     # names and maps
@@ -586,16 +886,16 @@ def rule_colour_vertices(F, R):
         try: text = engine_u.decode_template(tm[0]['value'])
         except Exception: return None
         a, b = [strip(f) for f in tup[0]['fields']]
-        return text, (a.get('field') if a['k'] == 'Field' else None), (root_var(b) or '').split('#')[0]
+        return text, (a.get('field') if a['k'] == 'Field' and rolename(roles, root_var(a['lhs'])) == 'edge' else None), rolename(roles, root_var(b))
     ins = [e for e in walk(t['body']) if e['k'] == 'Call' and callee_name(e) == 'std::collections::HashMap::insert']
     vmap = {}; cmap = {}
     for e in ins:
-        tbl = (root_var(e['args'][0]) or '').split('#')[0]
+        tbl = rolename(roles, root_var(e['args'][0]))
         key = root_var(e['args'][1]); val = strip(e['args'][2])
         while val['k'] == 'Call' and callee_decl(val) == 'std::clone::Clone::clone': val = strip(val['args'][0])
         np = name_parts(key)
         if tbl == 'vertex_map': vmap[key] = (np, val.get('field') if val['k'] == 'Field' else None)
-        if tbl == 'color_map': cmap[key] = (np, (root_var(val) or '').split('#')[0])
+        if tbl == 'color_map': cmap[key] = (np, rolename(roles, root_var(val)))
     ok = len(vmap) == 2 and len(cmap) == 2 and set(vmap) == set(cmap)
     if ok:
         ends = set()
@@ -618,6 +918,6 @@ def rule_colour_vertices(F, R):
                 calls = [x for x in walk(e['then']) if x['k'] == 'Call' and callee_name(x) == 'random_graph_gen::augment_colors']
                 asg = [x for x in walk(e['then']) if x['k'] == 'Assign']
                 if len(calls) == 1 and len(asg) == 1:
-                    ok = strip(calls[0]['args'][1]).get('var') == nv and (root_var(calls[0]['args'][0]) or '').startswith('selection') and (root_var(asg[0]['lhs']) or '').startswith('selection')
+                    ok = strip(calls[0]['args'][1]).get('var') == nv and rolename(mroles, root_var(calls[0]['args'][0])) == 'selection' and rolename(mroles, root_var(asg[0]['lhs'])) == 'selection'
     R.count('L:colour-call'); R.obligation(ok, 'L colour call')
     if not ok: R.violation('random_graph_gen::main / L / --colors', 'L', '--colors N must replace the selection by augment_colors(&selection, N) with N unchanged')
